@@ -28,7 +28,7 @@ pub struct Case11 {
 pub fn decode_case(tape: &[u32], style: u8, cache: usize, seq_raw: &[Vec<u16>], gap_seed: u64) -> Case11 {
     let mut g = Gen::new(tape, GenCfg { ill: 2, exclude: vec!["exec", "trigger", "now", "env"], ..GenCfg::default() });
     let (pipe, _) = EPipe::decode(&mut g, 3, 3);
-    let np = 1 + g.tape.below(6);
+    let np = 2 + g.tape.below(5);
     let mut pool = Vec::new();
     for _ in 0..np {
         if g.tape.chance(1, 6) {
@@ -40,6 +40,45 @@ pub fn decode_case(tape: &[u32], style: u8, cache: usize, seq_raw: &[Vec<u16>], 
     }
     let seqs = seq_raw.iter().map(|s| s.iter().map(|x| pick_idx(*x, pool.len())).collect()).collect();
     Case11 { pipe, style, cache, pool, seqs, gap_seed }
+}
+
+/// regex-focused cases: patterns and subjects come from the data, drawn from a pool of
+/// near-duplicates (whitespace, case, long common prefixes), and a cache is configured
+pub fn regex_case(tape: &[u32], style: u8, seq_raw: &[Vec<u16>], gap_seed: u64) -> Case11 {
+    const PATS: &[&str] = &["a", "a ", " a", "A", "ab", "ba", "a+", "a+ ", "^a", "^a ", "aaaaaaaaaaaaaaaab", "aaaaaaaaaaaaaaaac", "(?i)a", "[0-9", "b"];
+    const SUBJ: &[&str] = &["a", "a ", " a", "A", "ab", "ba", "b", "aaaaaaaaaaaaaaaab", "aaaaaaaaaaaaaaaac", ""];
+    let mut t = Tape::new(tape);
+    let m = |s: &str, p: Expr| Expr::call("match", vec![Expr::key(0, s), p]);
+    let re = Expr::key(0, "re");
+    let mut pipe = EPipe { sets: vec![], split: None, filter: None, selects: vec![] };
+    match t.below(4) {
+        0 => pipe.selects.push((m("s", re.clone()), "m".into())),
+        1 => {
+            pipe.filter = Some(m("s", re.clone()));
+            pipe.selects.push((Expr::key(0, "s"), "s".into()));
+        }
+        2 => {
+            pipe.selects.push((Expr::call("extract_regex_group", vec![Expr::key(0, "s"), re.clone(), Expr::lit("0")]), "g".into()));
+            pipe.selects.push((m("t", re.clone()), "m".into()));
+        }
+        _ => {
+            pipe.split = Some(Expr::key(0, "subjects"));
+            pipe.selects.push((Expr::call("match", vec![Expr::dot(), Expr::key(1, "re")]), "m".into()));
+        }
+    }
+    let np = 2 + t.below(5);
+    let mut pool = Vec::new();
+    let js = |x: &str| {
+        let mut o = String::new();
+        crate::rjson::write_json_string(x, &mut o);
+        o
+    };
+    for _ in 0..np {
+        let (a, b, c, p) = (t.pick_s(SUBJ), t.pick_s(SUBJ), t.pick_s(SUBJ), t.pick_s(PATS));
+        pool.push(format!("{{\"s\":{},\"t\":{},\"subjects\":[{},{}],\"re\":{}}}", js(a), js(b), js(c), js(a), js(p)));
+    }
+    let seqs = seq_raw.iter().map(|s| s.iter().map(|x| pick_idx(*x, pool.len())).collect()).collect();
+    Case11 { pipe, style, cache: [1usize, 2, 3, 64][t.below(4)], pool, seqs, gap_seed }
 }
 
 fn concat_input(pool: &[String], seq: &[usize], seed: u64) -> Vec<u8> {
@@ -71,11 +110,11 @@ impl Check for C11Local {
         "C11.local"
     }
     fn cases(&self, tier: Tier) -> u64 {
-        tier.pick(12_000, 400_000)
+        tier.pick(60_000, 1_500_000)
     }
     fn strategy(&self, _t: Tier) -> BoxedStrategy<Case11> {
-        (vec(any::<u32>(), 0..400), 0u8..8, prop::sample::select(vec![0usize, 0, 1, 2, 64]), vec(vec(any::<u16>(), 0..20), 1..5), any::<u64>())
-            .prop_map(|(tape, style, cache, seqs, gs)| decode_case(&tape, style, cache, &seqs, gs))
+        (any::<u8>(), vec(any::<u32>(), 0..400), 0u8..8, prop::sample::select(vec![0usize, 0, 1, 2, 64]), vec(vec(any::<u16>(), 0..20), 1..5), any::<u64>())
+            .prop_map(|(which, tape, style, cache, seqs, gs)| if which % 6 == 0 { regex_case(&tape, style.min(5), &seqs, gs) } else { decode_case(&tape, style, cache, &seqs, gs) })
             .boxed()
     }
     fn check(&self, case: &Case11) -> CaseResult {
@@ -152,6 +191,7 @@ impl Check for C11Local {
                 .class_if(!case.pipe.sets.is_empty(), "set")
                 .class_if(regex, "regex")
                 .class_if(regex && case.cache > 0, "regex_with_cache")
+                .class_if(case.pool.first().map(|p| p.starts_with("{\"s\":")).unwrap_or(false) && case.pool[0].contains("\"subjects\":"), "regex_focused")
                 .class_if(case.pipe.any_expr(&|e| matches!(e, Expr::Sel(_))), "back_reference")
                 .class_if(uneven, "some_value_yields_0_or_many_rows")
                 .class_if(!header.is_empty(), "header")
